@@ -42,6 +42,10 @@ def gen_cfg(rng, idx):
         # a full house: every slot of a 16-slot pool taken before the history starts
         cfg.update(tun=CROWD_TUNS[(idx // 8) % len(CROWD_TUNS)], crowd=True)
     cfg["clock_steps"] = idx % 5 == 2       # histories in which the server's wall clock is set back now and then
+    # other options of iodined, written behind the password on the command line (their arguments are no passwords)
+    orng = random.Random(cfg["rseed"] ^ 0x0A7E)
+    cfg["opts_after"] = orng.choice([[], [], ["-i", "3600"], ["-i", "86400", "-p", "53"], ["-m", "1200"], ["-n", "192.0.2.9"], ["-p", "53", "-D"],
+                                     ["-l", "0.0.0.0"], ["-i", "7200", "-m", "1000"]])
     return cfg
 
 
@@ -85,7 +89,9 @@ def run_history(tag, cfg, seed, nops=None):
     extra = ["-c"] if cfg["check_ip_off"] else []
     if cfg.get("jail"):
         extra += ["-t", "/var/empty"]          # iodined chroots into an empty directory after start-up
-    H.srv = sim.server(tun=cfg["tun"], password=H.password, extra=extra, password_on_stdin=bool(cfg.get("pw_stdin")))
+    H.srv = sim.server(tun=cfg["tun"], password=H.password, extra=extra, password_on_stdin=bool(cfg.get("pw_stdin")),
+                       extra_after=cfg.get("opts_after") or ())
+    H.argv_words = [w.encode() for w in (cfg.get("opts_after") or []) if not w.startswith("-")] + [cfg["tun"].encode(), sim.domain.encode()]
     if not H.srv.alive():
         H.why = "server-died-at-start"
         return H
@@ -547,6 +553,7 @@ def op_login_attack(H):
         p0 = pw
         alts = [p0.split(b" ")[0], p0.split(b"\t")[0], p0[:-1], p0[:8], p0[:16], p0[:31], p0.swapcase(), bytes(c & 0x7F for c in p0),
                 p0 + b"\n", p0.strip(), p0.lower()]
+        alts += list(getattr(H, "argv_words", []))       # ... or something else that stood on iodined's command line
         alts = [a for a in alts if (a + b"\0" * 32)[:32] != (p0 + b"\0" * 32)[:32]]
         dg = proto.login_hash(rng.choice(alts), ch) if alts else None
     elif kind == "L_wrongpw":
